@@ -84,9 +84,24 @@ class HostileT1(t1t.Type1TagSim):
 class HostileT3(t3t.Type3TagSim):
     """sensf = (with_sys, announced_sys, idm, pmm): what discovery saw."""
 
-    def __init__(self, mem, nbr, nbw, sensf=None, **kw):
+    def __init__(self, mem, nbr, nbw, sensf=None, poll_tail=None, **kw):
         t3t.Type3TagSim.__init__(self, mem, nbr=nbr, nbw=nbw, **kw)
         self.sensf = sensf
+        # poll_tail: octets appended to (negative: cut from) every Polling
+        # response, whatever the request code asked for - well framed
+        self.poll_tail = poll_tail
+
+    def execute(self, cmd, ctx):
+        rsp = t3t.Type3TagSim.execute(self, cmd, ctx)
+        if rsp is not None and len(cmd) >= 2 and cmd[1] == 0x00 and \
+                self.poll_tail is not None:
+            body = rsp[1:]
+            if isinstance(self.poll_tail, int):
+                body = body[:self.poll_tail]
+            else:
+                body = body + bytes(self.poll_tail)
+            rsp = bytes([1 + len(body)]) + body
+        return rsp
 
     def target(self):
         import nfc.clf
